@@ -1189,6 +1189,8 @@ def run(ctx):
     counts['R6'] = r6(prog, rep)
     counts['R7'] = r7(prog, rep)
     counts['R8'], r8table = r8(prog, rep)
+    import genutil
+    counts['R9'] = genutil.rule_param_array_loops(rep, prog, 'C16.R9', [f for f in fns(prog) if f.file and not f.file.endswith(('scan.c', 'parse.c')) and 'stage' not in f.file])
     rep.setcount('capacity_families', len(r8table))
     rep.setcount('translation_units', len(prog.modules))
     rep.setcount('functions_analysed', len(fns(prog)))
@@ -1200,6 +1202,7 @@ def run(ctx):
     rep.floor('C16.R5', 2, 'mkstate, new_rule')
     rep.floor('C16.R6', 2, 'flexend unlink, check_options outfile_created')
     rep.floor('C16.R7', 800, 'constant-index addresses of fixed arrays in flex')
+    rep.floor('C16.R9', 8, 'loops over (array, count) parameter pairs in dfa.c, ecs.c, tblcmp.c')
     rep.floor('C16.R8', 38, '11 capacity families with 37 (capacity, array) pairs today; epsclosure grows current_max_dfa_size at 5 macro sites')
     rep.undecided += ['termination and crash-freedom of flex on arbitrary input',
                       'bounds of writes that are not made through strcpy/strncpy/strncat/(v)snprintf (hand-written copy loops, array indexing)',
